@@ -125,3 +125,35 @@ pub fn safe_geo_box(rng: &mut crate::rng::Rng, levels: &[u8], around: (u8, u32, 
 	}
 	[-179.9, -84.9, 179.9, 84.9]
 }
+
+/// per axis: the candidate first / last tile index of the interval the rounding maps [a, b] to
+fn axis_bounds(a: f64, b: f64, z: u8) -> (i64, i64, i64, i64) {
+	let band = band_for(z);
+	let lo = [clampi(a - band, z), clampi(a + band, z)];
+	let hi = [clampi(b - band, z), clampi(b + band, z)];
+	(lo[0].min(lo[1]), lo[0].max(lo[1]), hi[0].min(hi[1]), hi[0].max(hi[1]))
+}
+
+fn axis_border(t: i64, bounds: (i64, i64, i64, i64), border: i64) -> Tri {
+	let (lo_min, lo_max, hi_min, hi_max) = bounds;
+	if t < lo_min - border || t > hi_max.max(lo_max) + border {
+		return Tri::Out;
+	}
+	if t >= lo_max - border && t <= hi_min + border {
+		return Tri::In;
+	}
+	Tri::DontCare
+}
+
+/// membership in the tile box of `geo` at the key's zoom, dilated by `border` tiles (clipped to the level)
+pub fn geo_membership_border(geo: &[f64; 4], k: &Key, border: u32) -> Tri {
+	let z = k.0;
+	let b = border as i64;
+	let tx = axis_border(k.1 as i64, axis_bounds(merc_x(geo[0], z), merc_x(geo[2], z), z), b);
+	let ty = axis_border(k.2 as i64, axis_bounds(merc_y(geo[3], z), merc_y(geo[1], z), z), b);
+	match (tx, ty) {
+		(Tri::Out, _) | (_, Tri::Out) => Tri::Out,
+		(Tri::In, Tri::In) => Tri::In,
+		_ => Tri::DontCare,
+	}
+}
